@@ -78,8 +78,6 @@ def run(tier):
     c = common.Check('C15', tier, 'SMT queries on the whole-return model composed from path-exhaustive symbolic summaries of the real line definitions: solved and not(balance) / solved and line < 0 must be unsat for non-negative inputs; witnesses replayed on the real Solver',
                      ['Field.value of every line in the demand closure of Form 1040 / NC D-400 (all years)', 'FloatField rounding (banded model, identity on grid operands)'])
     c.bounds = {'years': [2021, 2022, 2023], 'requested_forms': [['1040'], ['1040', 'nc_d-400']], 'copies_per_input_form': K, 'copies_total': S, 'amounts': '0 <= x <= 1e8, whole cents', 'filing_status': 'symbolic'}
-    if tier == 'quick':
-        c.outside.append('NC D-400 balance / non-negativity (thorough tier: the combined federal+NC model is slow)')
     c.stubs = ['figure_tax -> the statutory schedule term that C07 proves the real function equal to', 'InputStore -> every catalogued input present with a symbolic non-negative value']
     c.assumptions = ['oracle/nonneg.json lists the lines the forms define as non-negative', 'float arithmetic error of a line < 1e-6 (lemma L-fp)']
     retmodel.preload([(y, K, {'S': S, 'ft': 'ref', 'cents': True, 'nonneg': True}) for y in (2021, 2022, 2023)])
@@ -91,8 +89,7 @@ def run(tier):
         n = 4
         for i in range(n):
             tasks.append((y, K, S, ['1040'], fed[i::n], 'federal' if i == 0 else None))
-        if tier == 'thorough' or os.environ.get('HV_C15_NC') == '1':
-            tasks.append((y, K, S, ['1040', 'nc_d-400'], nc, 'nc'))
+        tasks.append((y, K, S, ['1040', 'nc_d-400'], nc, 'nc'))
     results = common.pmap(task, tasks)
     mp = {}
     for r in results:
